@@ -5,3 +5,124 @@ Open Scope Z_scope.
 Lemma tie_parse_num_per_batch n p m :
   GUtil.parse_num_per_batch n p m = FpsUtil.parse_num_per_batch n p m.
 Proof. destruct p, m; reflexivity. Qed.
+
+(* ====================================================================================== *)
+(* bb fps-split: the plan (rows per part file, zero-pad width) chosen by the CLI          *)
+(* ====================================================================================== *)
+From BB Require Import Proofs.FpsFacts.
+From Coq Require Import String Lia.
+
+(* ceil_div a b is THE ceiling of a / b (b > 0). *)
+Lemma ceil_div_spec a b : 0 < b -> (ceil_div a b - 1) * b < a <= ceil_div a b * b.
+Proof.
+  intros Hb. unfold ceil_div.
+  pose proof (Z.div_mod (- a) b ltac:(lia)) as E.
+  pose proof (Z.mod_pos_bound (- a) b Hb) as R.
+  set (q := (- a) / b) in *. set (r := (- a) mod b) in *. nia.
+Qed.
+
+Lemma ceil_div_unique a b c : 0 < b -> (c - 1) * b < a <= c * b -> ceil_div a b = c.
+Proof.
+  intros Hb Hc. pose proof (ceil_div_spec a b Hb). nia.
+Qed.
+
+(* [FpsFacts.ceil_div_pos : 1 <= a -> 0 < b -> 1 <= ceil_div a b] already exists; this is the
+   same fact with the hypotheses in the other order, under a name that does not shadow it. *)
+Lemma ceil_div_ge_1 a b : 0 < b -> 1 <= a -> 1 <= ceil_div a b.
+Proof. intros Hb Ha. apply FpsFacts.ceil_div_pos; assumption. Qed.
+
+Lemma ceil_div_le_iff a b k : 0 < b -> (ceil_div a b <= k <-> a <= k * b).
+Proof.
+  intros Hb. pose proof (ceil_div_spec a b Hb). split; intros; nia.
+Qed.
+
+(* n rows in parts of ceil(n/p) rows: at most p parts *)
+Lemma ceil_div_ceil_div_le n p : 1 <= n -> 1 <= p -> ceil_div n (ceil_div n p) <= p.
+Proof.
+  intros Hn Hp.
+  pose proof (ceil_div_ge_1 n p ltac:(lia) Hn) as Hc.
+  apply ceil_div_le_iff; [lia|].
+  pose proof (ceil_div_spec n p ltac:(lia)). lia.
+Qed.
+
+(* ... and it can be strictly fewer: 10 rows, --num-parts 6 -> 2 rows per file, 5 files *)
+Example ceil_div_ceil_div_strict : ceil_div 10 (ceil_div 10 6) = 5.
+Proof. vm_compute. reflexivity. Qed.
+
+(* exactly one of --num-parts / --max-fps, and --num-parts >= 2 *)
+Lemma split_plan_defined n parts mx :
+  GUtil.split_plan n parts mx <> None <->
+  ((exists p, parts = Some p /\ 2 <= p /\ mx = None) \/ (parts = None /\ exists m, mx = Some m)).
+Proof.
+  unfold GUtil.split_plan.
+  destruct parts as [p|], mx as [m|]; cbn [unwrapZ negb andb].
+  - destruct (Z.ltb_spec p 2); cbn; split; try congruence.
+    + intros [(q & _ & _ & H')|(H' & _)]; discriminate.
+    + intros [(q & _ & _ & H')|(H' & _)]; discriminate.
+  - destruct (Z.ltb_spec p 2); cbn; split; try congruence.
+    + intros [(q & Hq & Hq2 & _)|(H' & _)]; [injection Hq as ->; lia|discriminate].
+    + intros _. left. exists p. auto.
+  - cbn. split; [intros _; right; eauto|discriminate].
+  - cbn. split; [congruence|].
+    intros [(q & H' & _)|(_ & m & H')]; discriminate.
+Qed.
+
+Lemma split_plan_cases n parts mx per digits :
+  GUtil.split_plan n parts mx = Some (per, digits) ->
+  (exists p, parts = Some p /\ mx = None /\ 2 <= p /\
+             per = ceil_div n p /\ digits = Z.of_nat (String.length (str_of_Z p))) \/
+  (exists m, parts = None /\ mx = Some m /\
+             per = m /\ digits = Z.of_nat (String.length (str_of_Z (ceil_div n m)))).
+Proof.
+  unfold GUtil.split_plan.
+  destruct parts as [p|], mx as [m|]; cbn [unwrapZ negb andb].
+  - destruct (Z.ltb_spec p 2); cbn; discriminate.
+  - destruct (Z.ltb_spec p 2); cbn; [discriminate|].
+    intros H'. injection H' as <- <-. left. exists p. auto.
+  - cbn. intros H'. injection H' as <- <-. right. exists m. auto.
+  - cbn. discriminate.
+Qed.
+
+(* Every part index fits in the chosen number of digits (and the width is at least 1). *)
+Lemma split_plan_digits_enough_strong n parts mx per digits :
+  1 <= n -> (match mx with Some m => 1 <= m | None => True end) ->
+  GUtil.split_plan n parts mx = Some (per, digits) ->
+  1 <= per /\ 1 <= digits /\ forall i, 0 <= i < ceil_div n per -> i < 10 ^ digits.
+Proof.
+  intros Hn Hm H.
+  destruct (split_plan_cases _ _ _ _ _ H) as [(p & -> & -> & Hp & -> & ->)|(m & -> & -> & -> & ->)].
+  - split; [apply ceil_div_ge_1; lia|].
+    split; [pose proof (str_of_Z_bound p ltac:(lia)); lia|].
+    intros i Hi. apply digits_enough; [lia|].
+    pose proof (ceil_div_ceil_div_le n p Hn ltac:(lia)). lia.
+  - pose proof (ceil_div_ge_1 n m ltac:(lia) Hn) as Hc.
+    split; [exact Hm|].
+    split; [pose proof (str_of_Z_bound (ceil_div n m) ltac:(lia)); lia|].
+    intros i Hi. apply digits_enough; lia.
+Qed.
+
+Theorem split_plan_digits_enough n parts mx per digits :
+  1 <= n -> (match mx with Some m => 1 <= m | None => True end) ->
+  GUtil.split_plan n parts mx = Some (per, digits) ->
+  1 <= per /\ forall i, 0 <= i < ceil_div n per -> i < 10 ^ digits.
+Proof.
+  intros Hn Hm H.
+  destruct (split_plan_digits_enough_strong _ _ _ _ _ Hn Hm H) as (H1 & _ & H2). auto.
+Qed.
+
+(* hence the zero-padded part names sort (as strings) in part order *)
+Theorem split_plan_names_sorted n parts mx per digits stem i j :
+  1 <= n -> (match mx with Some m => 1 <= m | None => True end) ->
+  GUtil.split_plan n parts mx = Some (per, digits) ->
+  0 <= i < j -> j < ceil_div n per ->
+  str_ltb (part_name stem digits i) (part_name stem digits j) = true.
+Proof.
+  intros Hn Hm H Hij Hj.
+  destruct (split_plan_digits_enough_strong _ _ _ _ _ Hn Hm H) as (_ & Hd & Hfit).
+  apply part_names_sorted; [exact Hij| apply Hfit; lia | exact Hd].
+Qed.
+
+(* The hypothesis [1 <= m] is needed: --max-fps 0 is accepted by the plan (division by zero in
+   the Python; ceil_div n 0 = 0 here), giving per = 0. *)
+Example split_plan_max_fps_zero : GUtil.split_plan 5 None (Some 0) = Some (0, 1).
+Proof. vm_compute. reflexivity. Qed.
